@@ -237,7 +237,7 @@ func unsafeString(b []byte) string {
 }
 
 func mustAtoi(f [][]byte, index, line int) int {
-	i, err := strconv.ParseInt(unsafeString(f[index]), 0, 0)
+	i, err := strconv.ParseInt(unsafeString(f[index]), 10, 0)
 	if err != nil {
 		panic(&csv.ParseError{Line: line, Column: index, Err: err})
 	}
@@ -268,7 +268,7 @@ func mustAtoFr(f [][]byte, index, line int) Frame {
 	if len(f[index]) == 1 && f[index][0] == '.' {
 		return NoFrame
 	}
-	b, err := strconv.ParseInt(unsafeString(f[index]), 0, 8)
+	b, err := strconv.ParseInt(unsafeString(f[index]), 10, 8)
 	if err != nil {
 		panic(&csv.ParseError{Line: line, Column: index, Err: err})
 	}
